@@ -621,7 +621,17 @@ def havoc_loop(ip, node, h, spec, body_nodes):
                 elif isinstance(cell, ValCell):
                     h.env[n] = ip.new_cell(h, ValCell(ip.reg.new(n, "Val")))
                 elif isinstance(cell, IterCell):
-                    pass
+                    # the name is re-bound to another iterator in the loop: unknown content, unknown position
+                    if getattr(cell, "kind", None) is not None or getattr(cell, "live", None) is not None:
+                        raise U("loop rebinds `%s` holding a special iterator" % n)
+                    t0 = getattr(cell.src, "term", None)
+                    sort = t0.sort if t0 is not None else ip.reg.lst("V")
+                    nt = ip.reg.new(n + "$all", sort)
+                    ip.assume_wf(h, nt)
+                    cur0 = ip.reg.new(n + "$cur", "Int")
+                    h.assume(CMP("<=", I(0), cur0))
+                    h.assume(CMP("<=", cur0, ip.reg.l_len(nt)))
+                    h.env[n] = ip.new_cell(h, IterCell(ip.lst_view(nt), cur0, name=None))
                 else:
                     raise U("loop rebinds `%s` holding %s: give it a declared type via LoopSpec.ghost" % (n, type(cell).__name__))
             elif isinstance(cur, (Num, Bool, Opaque, Tup, NoneV)):
@@ -865,6 +875,18 @@ def for_iterator(ip, s, st, it, k, spec, is_list=False):
                 setattr(nc, a, getattr(cell, a))
         h.heap[it.cid] = nc
     h.assume(CMP(">=", i_t, I(0)))
+    hc = h.heap[it.cid]
+    if getattr(hc, "kind", None) is None and getattr(hc, "live", None) is None and hc.src is not None:
+        # an iterator never advances past the end of what it delivers
+        h.assume(CMP("<=", hc.cursor, hc.src.len))
+    elif getattr(hc, "live", None) is not None:
+        # a list that the loop body provably does not touch (same term before and after the havoc): i <= len is inductive
+        try:
+            t_before, t_head = ip.deref(st, hc.live), ip.deref(h, hc.live)
+            if t_before.s == t_head.s:
+                h.assume(CMP("<=", hc.cursor, ip.reg.l_len(t_head)))
+        except Exception:
+            pass
     set_loop_ghost(ip, h, k, i_t)
     assume_invariants(ip, spec, h)
     m0 = measure(ip, spec, h)
